@@ -524,3 +524,4 @@ def check(ctx, rep):
     inserter_tables_rule(ctx, rep, "C17.INSERT")      # the advertised _index/_insert/replace flags reach the container operation
     from . import shared
     shared.unused_params(ctx, rep, "C17.PARAM", ["spec_classes.methods", "spec_classes.utils.method_builder"])
+    shared.borrow(ctx, rep, "c06", {"C06.TRUTH": "C17.VALUE"})      # an advertised value (None, 0, '' included) reaches the behaviour as given
